@@ -80,6 +80,7 @@ struct Obj {
   std::unique_ptr<AdjInputData> data;   // for base/envelope
   Mat<> Ah; Vec<> bh;                   // homogenised system for full solvers
   std::vector<int> minx;
+  std::unique_ptr<SVD<double, int, Exception::matvec>> raw;   // class SVD used directly (lib/matvec/svd.h) on the homogenised system
 };
 
 static void homogenise(const Problem& p, Mat<>& A_dot, Vec<>& b_dot) {
@@ -150,6 +151,12 @@ int main() {
         std::cout << "ok problem\n";
       } else if (c == "new") {
         o = Obj();
+        if (w[1] == "rawsvd") {
+          homogenise(P, o.Ah, o.bh);
+          o.raw.reset(new SVD<double, int, Exception::matvec>(o.Ah));
+          std::cout << "ok new\n";
+          continue;
+        }
         if (w[1] == "adj") {
           o.adj.reset(new Adj);
           o.adj->set(make_input(P));        // Adj takes ownership
@@ -160,6 +167,19 @@ int main() {
           base_reset(o, P);
         }
         std::cout << "ok new\n";
+      } else if (o.raw && (c == "x" || c == "qxx" || c == "minx" || c == "minxall" || c == "defect")) {
+        if (c == "x") {
+          Vec<> x; o.raw->solve(o.bh, x);
+          std::cout << "ok"; for (int i = 1; i <= x.dim(); i++) std::cout << ' ' << dhex(x(i)); std::cout << "\n";
+        } else if (c == "qxx") {
+          std::cout << "ok " << dhex(o.raw->q_xx(std::stoi(w[1]), std::stoi(w[2]))) << "\n";
+        } else if (c == "defect") {
+          std::cout << "ok " << o.raw->nullity() << "\n";
+        } else if (c == "minx") {
+          int k = std::stoi(w[1]); o.minx.clear();
+          for (int i = 0; i < k; i++) o.minx.push_back(std::stoi(w[2 + i]));
+          o.raw->min_x(k, o.minx.data()); std::cout << "ok minx\n";
+        } else { o.raw->min_x(); std::cout << "ok minxall\n"; }
       } else if (c == "free") {
         o = Obj(); std::cout << "ok free\n";
       } else if (c == "x" || c == "r") {
